@@ -298,6 +298,10 @@ pub struct Globals {
     pub emergency_seen: std::sync::atomic::AtomicBool,
     /// non-zero while the driver is inside an `alloc_with_options` call: (sequence number << 1) | 1
     pub in_alloc_call: AtomicU64,
+    /// pseudo option `__scan_delay` (microseconds): `scan_object` calls made while mutators are running
+    /// (i.e. by concurrent marking packets) stall this long, so that marking overlaps with mutator ops
+    pub scan_delay_us: AtomicUsize,
+    pub mutators_running: std::sync::atomic::AtomicBool,
     /// human-readable description of that call (for the watchdog's verdict)
     pub alloc_call_desc: Mutex<String>,
 }
@@ -347,6 +351,8 @@ pub fn g() -> &'static Globals {
         live_mutators: AtomicUsize::new(0),
         emergency_seen: std::sync::atomic::AtomicBool::new(false),
         in_alloc_call: AtomicU64::new(0),
+        scan_delay_us: AtomicUsize::new(0),
+        mutators_running: std::sync::atomic::AtomicBool::new(true),
         alloc_call_desc: Mutex::new(String::new()),
     })
 }
@@ -513,6 +519,14 @@ impl<const V: usize> ObjectModel<ShadowVM<V>> for ShadowVM<V> {
 
 // ---------------------------------------------------------------- Scanning
 
+fn concurrent_scan_delay() {
+    let gl = g();
+    let d = gl.scan_delay_us.load(Ordering::Relaxed);
+    if d > 0 && gl.mutators_running.load(Ordering::Relaxed) {
+        std::thread::sleep(std::time::Duration::from_micros(d as u64));
+    }
+}
+
 fn is_reference_kind(k: u8) -> bool {
     k == KIND_SOFT || k == KIND_WEAK || k == KIND_PHANTOM
 }
@@ -525,6 +539,7 @@ impl<const V: usize> Scanning<ShadowVM<V>> for ShadowVM<V> {
 
     fn scan_object<SV: SlotVisitor<SimpleSlot>>(_tls: VMWorkerThread, object: ObjectReference, slot_visitor: &mut SV) {
         g().scan_calls.fetch_add(1, Ordering::Relaxed);
+        concurrent_scan_delay();
         let r = RawObj { start: object.to_raw_address().as_usize() - variant(V).ref_offset };
         let n = r.nrefs();
         let first = if is_reference_kind(r.kind()) { 1 } else { 0 };
@@ -543,6 +558,7 @@ impl<const V: usize> Scanning<ShadowVM<V>> for ShadowVM<V> {
 
     fn scan_object_and_trace_edges<OT: ObjectTracer>(_tls: VMWorkerThread, object: ObjectReference, object_tracer: &mut OT) {
         g().scan_calls.fetch_add(1, Ordering::Relaxed);
+        concurrent_scan_delay();
         let r = RawObj { start: object.to_raw_address().as_usize() - variant(V).ref_offset };
         let n = r.nrefs();
         let first = if is_reference_kind(r.kind()) { 1 } else { 0 };
@@ -642,6 +658,7 @@ impl<const V: usize> Collection<ShadowVM<V>> for ShadowVM<V> {
                 st = gl.cv.wait(st).unwrap();
             }
         }
+        gl.mutators_running.store(false, Ordering::SeqCst);
         ev(Ev::Stopped);
         let ptrs: Vec<usize> = gl.mutators.lock().unwrap().iter().map(|m| m.ptr).filter(|p| *p != 0).collect();
         for p in ptrs {
@@ -657,6 +674,7 @@ impl<const V: usize> Collection<ShadowVM<V>> for ShadowVM<V> {
             gl.emergency_seen.store(true, Ordering::SeqCst);
         }
         ev(Ev::Resume { worker: worker_ordinal(tls) });
+        gl.mutators_running.store(true, Ordering::SeqCst);
         let mut st = gl.sync.lock().unwrap();
         st.stop_requested = false;
         st.resume_epoch += 1;
